@@ -24,23 +24,30 @@ def pick_pool(seed):
 
     def straight(d, field, op="==", app=None):
         return (d["ref"]["f"] == field and d["op"] == op and d["skel"] == 1 and d["cons"] == "assert" and d["neg"] == 0
-                and d["c"] == 1 and d["side"] == "L" and (app is None or d["app"] == app))
+                and d["c"] in (1, 2) and d["side"] == "L" and (app is None or d["app"] == app))
+    def clean3(d, kinds, field, idx=None, app=False):
+        """a straight-line contract that asserts `<field of another member> == <zero address / 0 / first constant>`"""
+        return (d["ref"]["kind"] in kinds and d["ref"]["f"] == field and (idx is None or d["ref"]["i"] == idx)
+                and d["skel"] == 1 and d["op"] == "==" and d["c"] == 1 and d["cons"] == "assert" and d["guard"] == "none"
+                and d["second"] == 0 and d["side"] == "L" and d["app"] == app)
     want = [("f1", lambda d: straight(d, "RekeyTo", app=False)),
             ("f1", lambda d: straight(d, "Fee", "<=", app=False) or (d["ref"]["f"] == "Fee" and d["skel"] == 1 and not d["app"])),
             ("f1", lambda d: straight(d, "GroupIndex", app=False)),
             ("f1", lambda d: straight(d, "CloseRemainderTo", app=False)),
-            ("f1", lambda d: d["ref"]["f"] == "OnCompletion" and d["app"] and d["skel"] == 1),
-            ("f1", lambda d: d["ref"]["f"] == "Sender" and d["app"]),
-            ("f3", lambda d: d["ref"]["kind"] == "gtxn" and d["ref"]["f"] == "RekeyTo" and d["ref"]["i"] == 0 and d["skel"] == 1 and not d["app"]),
-            ("f3", lambda d: d["ref"]["kind"] == "gtxn" and d["ref"]["f"] == "RekeyTo" and d["ref"]["i"] == 1 and not d["app"]),
-            ("f3", lambda d: d["ref"]["kind"] in ("relp", "relps") and d["ref"]["f"] == "RekeyTo" and not d["app"]),
-            ("f3", lambda d: d["ref"]["kind"] == "relm" and d["ref"]["f"] in ("RekeyTo", "Fee") and not d["app"]),
-            ("f3", lambda d: d["ref"]["kind"] == "gtxn" and d["ref"]["f"] == "Fee" and not d["app"]),
+            ("f1", lambda d: straight(d, "OnCompletion", app=True)),
+            ("f1", lambda d: straight(d, "Sender", app=True)),
+            ("f3", lambda d: clean3(d, ("gtxn",), "RekeyTo", 0)),
+            ("f3", lambda d: clean3(d, ("gtxn", "gtxns"), "RekeyTo", 1)),
+            ("f3", lambda d: clean3(d, ("relp", "relps"), "RekeyTo")),
+            ("f3", lambda d: clean3(d, ("relm", "relms"), "RekeyTo") or clean3(d, ("relm", "relms"), "Fee")),
+            ("f3", lambda d: clean3(d, ("gtxn", "gtxns"), "Fee")),
             ("f3", lambda d: d["ref"]["kind"] in ("gtxn", "gtxns") and d["ref"]["f"] == "OnCompletion" and d["app"])]
     out = []
     for fam, pred in want:
         pool = f1 if fam == "f1" else f3
-        c = next((c for c in pool if pred(c["desc"]) and c not in out), None) or next(c for c in pool if c not in out)
+        c = next((c for c in pool if pred(c["desc"]) and c not in out), None)
+        if c is None:      # (a reshuffled corpus must not silently replace a sensitising contract by an arbitrary one)
+            raise fw.Machinery("group pool: no generated contract matches selector %d" % (len(out) + 1))
         out.append(c)
     return out
 
